@@ -25,7 +25,7 @@ type c18Inst struct {
 	silent   bool
 	silentAt time.Duration
 	hadCond  bool
-	reportAt time.Duration // last successful allocate report
+	reportAt time.Duration              // last successful allocate report
 	hb       map[string][]time.Duration // replica -> heartbeat arrival times
 }
 
@@ -79,6 +79,12 @@ func RunC18(r *sim.Run) {
 			return l[0]
 		}
 		return nil
+	}
+	leaderName := func() string {
+		if l := leader(); l != nil {
+			return l.Name
+		}
+		return ""
 	}
 	leaderSince := map[string]time.Duration{}
 	report := func(in *c18Inst, used int32) bool {
@@ -185,6 +191,23 @@ func RunC18(r *sim.Run) {
 				w.Advance(2500 * time.Millisecond)
 			} else {
 				in := join()
+				if t.Draw(3) == 0 {
+					// its first request goes out before its first heartbeat; it may die at once
+					w.Advance(time.Duration(t.Range(50, 1200)) * time.Millisecond)
+					n := int32(t.Range(1, 5))
+					ok, acc := acquire(in, n)
+					r.Logf("instance %s joins and acquires n=%d ok=%v accept=%v (heartbeats at the leader so far: %d)", in.gw.Name, n, ok, acc, len(in.hb[leaderName()]))
+					if ok && len(in.hb[leaderName()]) == 0 {
+						r.Probe("acquire_before_first_heartbeat")
+					}
+					if t.Draw(2) == 0 {
+						in.silent, in.silentAt = true, w.Now()
+						in.gw.Stop()
+						r.Fault("crash")
+						r.Logf("instance %s dies", in.gw.Name)
+						break
+					}
+				}
 				w.Advance(2500 * time.Millisecond)
 				r.Logf("instance %s joins", in.gw.Name)
 			}
@@ -294,7 +317,21 @@ func RunC18(r *sim.Run) {
 			ask := Lcnt - liveSum - 1
 			ok, acc := acquire(auditor, ask)
 			if ok && !acc && ask > 0 {
-				r.Violate("freed_capacity_not_available", storeKind, "all silent instances were reclaimed, live instances hold %v of the global in-flight limit %d, yet a survivor asking for %d was refused: counts of dead instances are still held", live, Lcnt, ask)
+				var dead []string
+				neverHB := true
+				for _, in := range insts {
+					if in.silent && in.count > 0 {
+						dead = append(dead, fmt.Sprintf("%s count=%d heartbeats_at_leader=%d", in.gw.Name, in.count, len(in.hb[ld.Name])))
+						if len(in.hb[ld.Name]) > 0 {
+							neverHB = false
+						}
+					}
+				}
+				sig := storeKind
+				if neverHB {
+					sig += "/never-heartbeated"
+				}
+				r.Violate("freed_capacity_not_available", sig, "all silent instances were reclaimed, live instances hold %v of the global in-flight limit %d, yet a survivor asking for %d was refused: counts of dead instances are still held (silent instances with a count: %v)", live, Lcnt, ask, dead)
 				return
 			}
 		}
